@@ -1070,8 +1070,9 @@ def threaded_run(seed, idx, flavour, smart, production, nops, budget=8.0, replay
 class Judge:
     """turns observations into verdicts.  `known` = entry points listed as open known findings; `unlocked` = set of
     (entry, function) UNLOCKED rows of the static table; `mutators` = functions the extractor calls mutating."""
-    def __init__(self, known, unlocked, mutators, audited_unlocked=None, fixed=()):
+    def __init__(self, known, unlocked, mutators, audited_unlocked=None, fixed=(), lockless=()):
         self.known, self.unlocked, self.mutators = set(known), set(unlocked), set(mutators)
+        self.lockless = set(lockless)       # open findings that take the lock on no path: identified by entry point alone
         self.fixed = set(fixed)             # entry points of `fixed:` findings: replayed, every mutation must be owned
         self.fixed_replayed = {e: 0 for e in self.fixed}
         self.audited_unlocked = set(audited_unlocked if audited_unlocked is not None else unlocked)
@@ -1101,7 +1102,8 @@ class Judge:
                 fn = o.func.split("@")[-1]          # container mutations are attributed to the innermost active mutating function
                 if fn == "None":
                     self.unattributed += 1
-                if o.entry in self.known and (o.entry, fn) in self.audited_unlocked and not o.func.startswith("section-split"):
+                if o.entry in self.known and ((o.entry, fn) in self.audited_unlocked or o.entry in self.lockless) \
+                        and not o.func.startswith("section-split"):
                     self.counts["hard_unowned_known"] += 1
                     self.confirmed.setdefault(o.entry, dict(ctx, function=o.func))
                 else:
@@ -1187,6 +1189,37 @@ PART_A = ["CS.Lock.discipline_implies_serializable", "CS.Lock.discipline_implies
           "CS.Lock.racy_undisciplined", "CS.Lock.racy_not_serializable"]
 
 
+def tolerable_row(d, j, mutators, defined, lockless, delegating=()):
+    """Is this difference between the regenerated and the audited table one that cannot hide an unlocked mutation?
+    (only consulted when NO unowned mutation and NO static/dynamic disagreement was observed in the whole run)
+      more-locked        audited UNLOCKED -> now locked: the set of unlocked rows shrinks;
+      gone               audited row -> now absent, provided the function is gone from the sources, or is still classified mutating
+                         (merely unreachable from that entry point), or now directly calls a function classified mutating (its mutating
+                         statements were moved into a helper whose own rows are judged).  A function that still exists, LOST its
+                         mutating status and delegates to no mutating function is NOT tolerated: its mutation may have moved to a place
+                         the extractor does not know;
+      new-locked         audited absent -> now locked (every path from the entry point passes through `with ...lock`), provided the
+                         function was actually executed in this run and every execution observed had the lock owned;
+      new-under-lockless audited absent -> now UNLOCKED under an OPEN known-finding entry point that takes the lock on NO path at all
+                         (audited and regenerated locked lists both empty): more of the same finding, which is identified by entry point.
+    Everything else (locked -> UNLOCKED, a new UNLOCKED row elsewhere, ...) keeps the check strict."""
+    e, f, now, aud = d["entry"], d["function"], d["now"], d["audited"]
+    if now == "absent":
+        if f in defined and f not in mutators and f not in delegating:
+            return False, "function still exists but is no longer classified mutating and delegates to no mutating function"
+        return True, "gone"
+    if aud == "UNLOCKED" and now == "locked":
+        return True, "more-locked"
+    if aud == "absent" and now == "locked":
+        seen = {o for (_e, fn, o) in j.pairs_seen if fn == f}
+        if f in mutators and seen == {True}:
+            return True, "new-locked"
+        return False, "new locked row not confirmed dynamically (executed with the lock owned: %s)" % (sorted(seen) or "never executed")
+    if aud == "absent" and now == "UNLOCKED" and e in lockless:
+        return True, "new-under-lockless"
+    return False, "%s -> %s" % (aud, now)
+
+
 def audit_part_a():
     """when only the generated table broke the build: do the model theorems (Props/C15.lean) still check, axioms clean?"""
     import re
@@ -1228,10 +1261,20 @@ def run(res, tier, seed, proof_broken, replay):
     opens, fixed = load_known_findings(PID)
     known = {i[len(FINDING_PREFIX):]: what for i, what in opens.items() if i.startswith(FINDING_PREFIX)}
     fixed_ents = {i[len(FINDING_PREFIX):]: what for i, what in fixed.items() if i.startswith(FINDING_PREFIX)}
+    _classes, _fns, _modfuncs = gen_lock_sites.load()
+    gen_lock_sites.analyse(_classes, _fns, _modfuncs)
+    defined = set(_fns)
+    delegating = {q for q, fn in _fns.items() if any(c in mutators for c, _lk in fn.calls)}
+    cur_locked = {}
+    for e, q, ok in rows:
+        if ok:
+            cur_locked.setdefault(e, []).append(q)
+    # open findings whose entry point takes the lock on no path at all: any function reached under them is the same finding
+    lockless = {e for e in known if not audited.get(e, ([], []))[0] and not cur_locked.get(e)}
     install_probe(mutators)
     PROBE.want_stack = True
     j = Judge(known, {(e, q) for e, q, ok in rows if not ok}, mutators, {(e, q) for e, (_l, u) in audited.items() for q in u},
-              fixed=fixed_ents)
+              fixed=fixed_ents, lockless=lockless)
     widen = bool(proof_broken or diff)
     thorough = tier == "thorough" or widen and tier != "quick"
     rng = rng_for(seed, "c15")
@@ -1376,20 +1419,27 @@ def run(res, tier, seed, proof_broken, replay):
         v = dict(v, property=PID, broken=broken[:3], table_diff=diff[:10])
         res.violation(v)
     if broken and not j.violations:
-        improved_only = bool(diff) and all(d["audited"] == "UNLOCKED" and d["now"] in ("locked", "absent") for d in diff) and not j.crosscheck
+        verdicts_d = [tolerable_row(d, j, mutators, defined, lockless, delegating) for d in diff]
+        drift_ok = bool(diff) and all(ok for ok, _why in verdicts_d) and not j.crosscheck
         only_table = False
-        if improved_only:
-            rest = audit_part_a() if any("lake build failed" in b for b in broken) else \
-                [b for b in proof_broken if "lock_sites_audited" not in b and "engine_threads_locked" not in b and "unlocked_entry_points" not in b]
+        if drift_ok:
+            # the table modules are property-local: when they do not build every theorem of the audit file is reported missing;
+            # re-audit Part A (the model theorems, which do not depend on the table) on its own
+            rest = audit_part_a()
             only_table = not rest
             res.coverage["part_A_audit_after_table_change"] = rest or "clean"
-        if improved_only and only_table:
-            res.notes.append("the regenerated lock-site table is strictly MORE locked than the audited table (%d rows) and no unlocked mutation was "
-                             "observed: the audited table in Props/C15Table.lean needs a refresh; not a violation" % len(diff))
+        if drift_ok and only_table:
+            kinds = {}
+            for (_ok, why) in verdicts_d:
+                kinds[why] = kinds.get(why, 0) + 1
+            res.coverage["table_drift_accepted"] = kinds
+            res.notes.append("the regenerated lock-site table differs from the audited table only in safe directions (%s) and no unlocked mutation was "
+                             "observed: the audited table in Props/C15Table.lean needs a refresh; not a violation"
+                             % ", ".join("%d x %s" % (n, k) for k, n in sorted(kinds.items())))
         else:
             res.violation({"property": PID, "kind": "proof obligation / generated table / cross-check no longer checks; no unlocked mutation observed",
-                           "broken": broken, "table_diff": diff[:40], "crosscheck": j.crosscheck[:5]}, no_input=True)
-
+                           "broken": broken, "table_diff": diff[:40], "crosscheck": j.crosscheck[:5],
+                           "rows_not_tolerable": [dict(d, why=w) for d, (ok, w) in zip(diff, verdicts_d) if not ok][:20]}, no_input=True)
 
 if __name__ == "__main__":
     gen_lock_sites.write_gen()
